@@ -6,9 +6,9 @@ HOOKS = {
     "add_only": True,
 }
 ENGINES = [
-    {"name": "coq-model", "path": "/verif/coq", "serves_properties": ["C01", "C02", "C07", "C08", "C12", "C13", "C14", "C20"],
+    {"name": "coq-model", "path": "/verif/coq", "serves_properties": ["C01", "C02", "C07", "C08", "C12", "C13", "C14", "C17", "C20"],
      "kind_free_text": "hand-written Gallina model (Model/), proofs (Proofs/), property theorems (Props/), Coq 8.16.1"},
-    {"name": "correspondence", "path": "/verif/harness", "serves_properties": ["C01", "C02", "C07", "C08", "C12", "C13", "C14", "C20"],
+    {"name": "correspondence", "path": "/verif/harness", "serves_properties": ["C01", "C02", "C07", "C08", "C12", "C13", "C14", "C17", "C20"],
      "kind_free_text": "Go harness driving /repo (built with -tags verif) + extracted OCaml model and oracle (ocaml/) on the same cases"},
 ]
 NOTES = ("Every check: rebuild Coq closure of Props/<id>.v, parse Print Assumptions, build harness against /repo's working tree, "
@@ -49,6 +49,19 @@ CHECKS = [
         "kept within years 1800-2200 (UnixNano range is C01's concern); sampling rate 0 modelled as a panic, excluded (n >= 1).",
         "Coq proof (induction over operation histories on an explicit object store) + differential correspondence",
         "DESIGN.md section 8 C14"),
+    chk("C17",
+        "13 Coq theorems (Props/C17.v) for the six uncompressed collector kinds, all batch sizes, EVERY operation history and every writer fault "
+        "schedule, over arbitrary documents: C17_log (writer records and Resolve are exactly metadata-then-accepted-samples, verbatim, once each, in "
+        "order; Info = pending), C17_flavour (every output of a collector has the flavour it was constructed with, for its whole lifetime, and no "
+        "compressed FTDC is ever produced - the theorem the repaired defect D10 broke), C17_batch (1..n samples per output), exact Add outcomes, "
+        "flush-before-add at capacity, new output exactly at a signature change or capacity for the schema-aware kinds, outputs never mix "
+        "signatures, pure Add sequences are grouped without loss. The extracted oracle c17_run is proved true on the model for every history "
+        "(C17_oracle). Correspondence: all short histories over 8 symbols x 6 kinds x n<=3 plus random ones with write faults; BSON flavour compared "
+        "byte-for-byte, JSON flavour line by line against the library's own rendering and parsed back.",
+        "Trusted: as C01. Extended-JSON rendering/parsing is a library step outside the model (compared textually with the same library call on the "
+        "inputs). The model's OSetMeta None has no Go counterpart (SetMetadata(nil) errors) and is never generated.",
+        "Coq proof (refinement to a (records, pending, metadata) machine by induction over histories) + differential correspondence",
+        "DESIGN.md section 8 C17"),
     chk("C20",
         "Seven Coq theorems (Props/C20.v) over a Gallina model of t2.go (TranslateGenny, translateAtNextWindow with its inclusive prevIdx "
         "cursor and chunk advance, translateMetrics' selection by key, GetGennyTime, the 300-sample streaming collector): for every actor list "
